@@ -148,6 +148,7 @@ impl GameSpy3 {
         let mut values: Vec<Vec<u8>> = Vec::new();
 
         let mut reached_expected_packets_size = false;
+        let mut expected_packets: Option<usize> = None;
 
         while !reached_expected_packets_size {
             let received_data = self.receive(None, 0)?;
@@ -167,8 +168,8 @@ impl GameSpy3 {
             let packet_id = (id & 0x7f) as usize;
             buf.move_cursor(1)?; //unknown byte regarding packet no.
 
-            if is_last && packet_id + 1 != values.len() {
-                reached_expected_packets_size = true;
+            if is_last {
+                expected_packets = Some(packet_id + 1);
             }
 
             while values.len() <= packet_id {
@@ -176,6 +177,14 @@ impl GameSpy3 {
             }
 
             values[packet_id] = buf.remaining_bytes().to_vec();
+
+            // packets may arrive in any order: done once the last one is known and
+            // every packet up to it is there
+            if let Some(expected) = expected_packets {
+                if values.len() >= expected && values[.. expected].iter().all(|v| !v.is_empty()) {
+                    reached_expected_packets_size = true;
+                }
+            }
         }
 
         if values.iter().any(Vec::is_empty) {
